@@ -65,10 +65,16 @@ UsageAgrees(c) ==
 (* virtual IPs *)
 VipInjective(c) == \A a, b \in c.vips : a.ip = b.ip => a = b
 VipPoolDisjoint(c) == \A a \in c.vips : a.ip \notin ToSet(c.free)
-AdvertisedVipCurrent(c) ==
-  \A s \in Local(c.svcs) : s.vip # "" =>
-     LET n == IF s.kind = "connect-proxy" THEN s.dest ELSE s.name IN
-     \A v \in c.vips : v.name = n /\ v.peer = "" => TRUE   \* (the advertised address carries the configured offset; compared by presence)
+\* a virtual IP advertised by an instance (its own "consul-virtual" address - of the destination service for a
+\* sidecar proxy - or a terminating gateway's "consul-virtual:<service>" address) is that service's current assignment
+AdvertisedName(s, a) == IF a.svc # "" THEN a.svc ELSE IF s.kind = "connect-proxy" THEN s.dest ELSE s.name
+Assigned(c, s, a) == \E v \in c.vips : v.name = AdvertisedName(s, a) /\ v.peer = s.peer /\ v.tail = a.ip
+\* split by who advertises, so that a verdict names the path: a sidecar proxy (the destination's address), a
+\* connect-native instance (its own), a terminating gateway (one address per linked service)
+AdvertisedVipCurrentProxy(c) == \A s \in c.svcs : \A a \in ToSet(s.adv) : (a.svc = "" /\ s.kind = "connect-proxy") => Assigned(c, s, a)
+AdvertisedVipCurrentOwn(c) == \A s \in c.svcs : \A a \in ToSet(s.adv) : (a.svc = "" /\ s.kind # "connect-proxy") => Assigned(c, s, a)
+AdvertisedVipCurrentGateway(c) == \A s \in c.svcs : \A a \in ToSet(s.adv) : a.svc # "" => Assigned(c, s, a)
+AdvertisedVipCurrent(c) == AdvertisedVipCurrentProxy(c) /\ AdvertisedVipCurrentOwn(c) /\ AdvertisedVipCurrentGateway(c)
 
 (* step property: deregistering a node / service leaves nothing of it behind *)
 CascadeComplete(pre, post) ==
